@@ -50,9 +50,45 @@ fn render(ev: &LogEvent) -> String {
     let r = ROUND.fetch_add(1, std::sync::atomic::Ordering::SeqCst);
     let limit = (r.wrapping_mul(7919) + r / 3) % (probe.len() + 1);
     let _ = ev.write_jsonl(&mut FailAfter { limit, taken: 0 });
-    let mut out: Vec<u8> = Vec::new();
+    let mut out = Units { buf: Vec::new(), units: 0 };
     ev.write_jsonl(&mut out).unwrap();
-    tok_of_bytes(&out)
+    tok_of_bytes(&out.buf)
+}
+
+/// The sink the line is observed through.  A shared sink such as `std::io::Stdout` (the stdout JSONL logger writes to
+/// it unlocked) is locked per top-level call -- one `write_fmt`, one `write_all`, one `write` -- and other writers of
+/// the process get in between two calls.  This sink plays that other writer at its worst: it puts a line feed
+/// between any two top-level calls, so an event handed over in several calls is observed as several lines.
+struct Units {
+    buf: Vec<u8>,
+    units: usize,
+}
+impl Units {
+    fn unit(&mut self) {
+        if self.units > 0 {
+            self.buf.push(b'\n');
+        }
+        self.units += 1;
+    }
+}
+impl std::io::Write for Units {
+    fn write(&mut self, b: &[u8]) -> std::io::Result<usize> {
+        self.unit();
+        self.buf.extend_from_slice(b);
+        Ok(b.len())
+    }
+    fn write_all(&mut self, b: &[u8]) -> std::io::Result<()> {
+        self.unit();
+        self.buf.extend_from_slice(b);
+        Ok(())
+    }
+    fn write_fmt(&mut self, args: std::fmt::Arguments<'_>) -> std::io::Result<()> {
+        self.unit();
+        self.buf.write_fmt(args)
+    }
+    fn flush(&mut self) -> std::io::Result<()> {
+        Ok(())
+    }
 }
 
 fn ev(toks: &[&str]) -> String {
